@@ -10,6 +10,7 @@ use std::sync::atomic::{AtomicUsize, Ordering};
 use vh_alloc as la;
 
 mod gen;
+mod hostile;
 mod recycle;
 
 #[global_allocator]
@@ -896,6 +897,7 @@ fn main() {
     let mut profile = String::from("mixed");
     let mut adj_every: usize = 5;
     let mut recycle_file: Option<String> = None;
+    let mut hostile_file: Option<String> = None;
     let mut i = 1;
     while i < args.len() {
         match args[i].as_str() {
@@ -936,6 +938,10 @@ fn main() {
                 par_override = Some(args[i + 1].parse().unwrap());
                 i += 1;
             }
+            "--hostile" => {
+                hostile_file = Some(args[i + 1].clone());
+                i += 1;
+            }
             "--recycle" => {
                 recycle_file = Some(args[i + 1].clone());
                 i += 1;
@@ -959,6 +965,25 @@ fn main() {
     let f = std::fs::OpenOptions::new().create(true).append(true).open(&outp).expect("open out");
     let mut m = Machine::new();
     m.sink = Some(f);
+    if let Some(hf) = hostile_file {
+        let text = std::fs::read_to_string(&hf).expect("read hostile cases");
+        let mut out = String::new();
+        for (pi, line) in text.lines().enumerate() {
+            if pi < start || line.trim().is_empty() {
+                continue;
+            }
+            let v: serde_json::Value = serde_json::from_str(line).expect("case json");
+            m.out.push_str(&hostile::intent(&v, pi));
+            m.flush();
+            out.clear();
+            hostile::run_case(&v, pi, &mut out);
+            m.out.push_str(&out);
+            m.flush();
+        }
+        let _ = writeln!(m.out, "#done {}", 0);
+        m.flush();
+        return;
+    }
     if let Some(rf) = recycle_file {
         let text = std::fs::read_to_string(&rf).expect("read patterns");
         let mut out = String::new();
